@@ -158,7 +158,7 @@ class C06(Check):
         return repr(st)
 
     def max_states(self):
-        return 400000
+        return 700000
 
     def initial_states(self):
         for build in ("hg19", "hg38"):
